@@ -69,7 +69,7 @@ def make_storage(kind, workdir):
 # ------------------------------------------------------------------ histories (C06, C08, C09 store level)
 
 def gen_history(rng, tier):
-    case = S.gen_case(rng, max_n=6, p_fail=0.1, runner=rng.choice(['l1', 'l1', 'serial', 'serial', 'fork']), ntypes=12)
+    case = S.gen_case(rng, max_n=6, p_fail=0.1, runner=rng.choice(['l1', 'l1', 'serial', 'serial', 'fork']), ntypes=12, p_unpicklable=0.4)
     case['pre'] = []
     case['storage'] = 'local'
     n = case['n']
@@ -192,6 +192,15 @@ def run_history(h):
                     outs.append(['laberror', fails[-1] if fails else -1])
                 except BaseException as e:   # noqa
                     outs.append(['other', repr(e)[:200]])
+                # a task fails only if it is made to fail or reads a dependency that failed in this call
+                fin_now = {e[1]: e[2] for e in rec.ev if e[0] == 'finish'}
+                forced = set(op[4] if len(op) > 4 else [])
+                for t, v in fin_now.items():
+                    if v is None and case['behs'][t] == 'ok' and t not in forced:
+                        found = S.flat_spec(case['specs'][t])
+                        if not any(fin_now.get(found[i], 0) is None for i in case['reads'][t]):
+                            problems.append(('spurious-failure', f"task {t} failed ({rec.excs.get(t)}) although it is not a failing task and every dependency result it reads was produced in this call"))
+                            break
                 # by the harness's own bookkeeping (not is_cached): a task stored by an earlier call and not uncached since is loaded
                 if not op[2]:
                     again = [e[1] for e in rec.ev if e[0] == 'submit' and not e[2] and e[1] in stored]
@@ -264,6 +273,9 @@ def run_history(h):
                                 problems.append(('no-meta', 'reconstructed task carries no stored result_meta'))
                             if not lab.is_cached(t):
                                 problems.append(('listed-not-cached', f'cached_tasks lists task {built.tid_of[t]} but is_cached says False for the listed object'))
+                    missing = [t for t in stored if case['types'][t] in op[1] and t not in tids]
+                    if missing:
+                        problems.append(('stored-not-listed', f'cached_tasks for types {op[1]} does not list tasks {missing}, which earlier calls stored and nothing uncached'))
                     if len(tids) != len(set(tids)):
                         problems.append(('listed-twice', f'cached_tasks listed a task more than once: {sorted(tids)}'))
                     outs.append(['list', sorted(set(tids))])
@@ -272,6 +284,15 @@ def run_history(h):
                 oracles.append(None)
         lab = Lab(storage=storage, runner_backend='serial', notebook=False)
         final = sorted(t for t in range(case['n']) if lab.is_cached(built.canon[t]))
+        # C06: the equal task built from the canonical spelling (what a parameter-rewriting post_init leaves) is the same task
+        for t in final:
+            c = built.canon[t]
+            if type(c) is U.TRw:
+                same = U.TRw(label=c.label, deps=c.deps, beh=c.beh, reads=c.reads, talk=c.talk)
+                if same == c and not lab.is_cached(same):
+                    problems.append(('equal-task-not-cached', f'task {t} is cached, but the equal task built from the spelling its post_init canonicalises to '
+                                                               f'({c.beh!r}) is reported as not cached (keys {c.cache_key} / {same.cache_key})'))
+                    break
         # C06 probe: a same-named task type of another module with the same parameter values is a different task;
         # it was never run, so it is not cached and running it never yields what was stored for its namesake
         import lv_universe2 as U2
@@ -385,7 +406,32 @@ def stage_unreadable_entry(report, dist):
             shutil.rmtree(workdir, ignore_errors=True)
 
 
+def stage_zero_duration(report):
+    """C06, directed: an entry whose recorded duration is exactly zero (coarse clock) loads with that duration, not without one."""
+    d = tempfile.mkdtemp(dir=subdir('zero'))
+    try:
+        st = LocalStorage(os.path.join(d, 's'))
+        for t in (U.Ta(label=1), U.TJ(label=2)):
+            meta = ResultMeta(start=datetime(2021, 3, 4, 5, 6, 7), duration=timedelta(0))
+            t._lt.cache.save(st, t, TaskResult(value=('N', t.label, ()), meta=meta))
+            got = t._lt.cache.load_result_with_meta(st, t).meta
+            if got.start != meta.start or got.duration != meta.duration:
+                report.violation('C06:result-meta-differs', f'an entry saved with {meta} loads with result_meta {got}', dict(level='zero-duration'))
+                return
+    finally:
+        shutil.rmtree(d, ignore_errors=True)
+
+
 def run_histories(prop, report, tier, seed, replay=None):
+    if prop == 'C06' and (replay is None or replay['input'].get('level') == 'zero-duration'):
+        stage_zero_duration(report)
+        if replay is not None:
+            return
+    if prop in ('C06', 'C08') and (replay is None or replay['input'].get('level') == 'nested-names'):
+        import props_sched
+        props_sched.stage_nested_names(report, Counter(), prop=prop)
+        if replay is not None:
+            return
     if prop == 'C02' and (replay is None or replay['input'].get('level') == 'unreadable-entry'):
         stage_unreadable_entry(report, Counter())
         if replay is not None:
@@ -401,9 +447,9 @@ def run_histories(prop, report, tier, seed, replay=None):
         dist[f"len={len(h['ops'])}"] += 1
         for out in obs['outs']:
             dist[f'out={out[0]}'] += 1
-        owner = {'entry-lost-by-run': ['C08', 'C06'], 'entry-appeared': ['C08'], 'entry-appeared-unneeded': ['C08', 'C03'], 'cached-but-executed': ['C06', 'C03'], 'no-result-meta': ['C06'], 'result-meta-differs': ['C06'],
-                 'other-task-served': ['C06'], 'loaded-value-differs': ['C06', 'C08'], 'uncache-left-entry': ['C08'], 'loaded-under-bust': ['C08', 'C01', 'C02'], 'stale-read-of-failed-dep': ['C02'], 'stale-dependency-value': ['C01', 'C02'],
-                 'foreign-task': ['C09', 'C08'], 'key-differs': ['C09', 'C08'], 'no-meta': ['C09'], 'listed-twice': ['C09', 'C08'], 'listed-not-cached': ['C08', 'C09']}
+        owner = {'entry-lost-by-run': ['C08', 'C06'], 'entry-appeared': ['C08'], 'entry-appeared-unneeded': ['C08', 'C03'], 'cached-but-executed': ['C06', 'C03'], 'no-result-meta': ['C06'], 'result-meta-differs': ['C06', 'C03'],
+                 'other-task-served': ['C06'], 'equal-task-not-cached': ['C06', 'C07'], 'loaded-value-differs': ['C06', 'C08'], 'uncache-left-entry': ['C08'], 'loaded-under-bust': ['C08', 'C01', 'C02'], 'stale-read-of-failed-dep': ['C02'], 'stale-dependency-value': ['C01', 'C02'],
+                 'foreign-task': ['C09', 'C08'], 'key-differs': ['C09', 'C08'], 'no-meta': ['C09'], 'listed-twice': ['C09', 'C08'], 'listed-not-cached': ['C08', 'C09'], 'stored-not-listed': ['C08', 'C09'], 'spurious-failure': ['C17', 'C02', 'C01']}
         for sig, what in obs['problems']:
             if prop in owner.get(sig, []):
                 report.violation(f'{prop}:{sig}', what, dict(history=h))
